@@ -531,8 +531,32 @@ async fn run(_tier: Tier) {
         } else {
             (false, false, false)
         };
+        // Companions: untampered validations of other queries running
+        // concurrently on the same context (shared node and signature
+        // caches, concurrent DS/DNSKEY fetches). Only when no infrastructure
+        // response is to be harmed, so that every result stays attributable.
+        let n_comp = if infra_harm.is_none() && sim::chance("companions", 1, 3) { 1 + sim::draw("companions.n", 3) as usize } else { 0 };
+        let mut comp_jobs: Vec<(&str, Rtype, &str, bool, Message<Vec<u8>>)> = Vec::new();
+        for _ in 0..n_comp {
+            let (cq, ct, cc) = QUERIES[sim::draw("companions.query", QUERIES.len() as u64) as usize];
+            let mut cr = w.resolve(cq, ct);
+            legit_transform(&mut cr);
+            let mut mb = MessageBuilder::new_vec();
+            mb.header_mut().set_rd(true);
+            let mut qb = mb.question();
+            qb.push((Name::<Vec<u8>>::from_chars(cq.chars()).unwrap(), ct)).unwrap();
+            let bytes = to_message(&qb.into_message(), &cr);
+            comp_jobs.push((cq, ct, cc, cr.insecure, Message::from_octets(bytes).expect("message")));
+        }
+        if n_comp > 0 {
+            sim::stat("probe.concurrent_validations");
+            ev!("  with {} concurrent untampered validations: {:?}", n_comp, comp_jobs.iter().map(|j| (j.0, j.1)).collect::<Vec<_>>());
+        }
+        let mut comp_msgs: Vec<Message<Vec<u8>>> = comp_jobs.iter().map(|j| j.4.clone()).collect();
+        let comp_fut = futures_util::future::join_all(comp_msgs.iter_mut().map(|m| vc.validate_msg::<Vec<u8>, Vec<u8>>(m)));
         let mut wrapped: Option<Result<Message<Bytes>, Error>> = None;
-        let res = if via_wrapper {
+        let main_fut = async {
+          if via_wrapper {
             sim::stat("probe.via_client_wrapper");
             *final_up.staged.lock().unwrap() = Some(r.clone());
             let mut creq = RequestMessage::new(req_msg.clone()).expect("request");
@@ -553,9 +577,11 @@ async fn run(_tier: Tier) {
             };
             wrapped = Some(out);
             translated
-        } else {
+          } else {
             vc.validate_msg::<Vec<u8>, Vec<u8>>(&mut msg).await
+          }
         };
+        let (res, comp_res) = futures_util::join!(main_fut, comp_fut);
         sim::sync_clock();
         let (infra_applied, infra_queries) = {
             let g = up.st.lock().unwrap();
@@ -573,6 +599,36 @@ async fn run(_tier: Tier) {
         let secure = matches!(res, Ok((ValidationState::Secure, _)));
         if infra_applied > 0 {
             cache_poisoned = true;
+        }
+        // ---- the companions
+        for ((cq, ct, cc, c_insecure, _), cres) in comp_jobs.iter().zip(comp_res.iter()) {
+            let cstate = match cres {
+                Ok((s, _)) => format!("{:?}", s),
+                Err(e) => format!("Err({:?})", e).chars().take(60).collect(),
+            };
+            ev!("  companion {} {} -> {}", cq, ct, cstate);
+            let csecure = matches!(cres, Ok((ValidationState::Secure, _)));
+            if csecure && !in_window {
+                sim::violation(P, "soundness", "secure-outside-signature-validity/concurrent".to_string(), format!("{} {} ({}) validated concurrently: Secure outside the signatures' validity window", cq, ct, cc));
+                return;
+            }
+            if csecure && *c_insecure {
+                sim::violation(P, "soundness", format!("secure-for-insecure-data/{}", cc), format!("{} {}: data from the unsigned zone reported Secure (concurrent validation)", cq, ct));
+                return;
+            }
+            if !cache_poisoned && in_window && clock_plan != 7 && clock_plan != 8 {
+                let want = if *c_insecure { "Insecure" } else { "Secure" };
+                let opt_out_negative = world_idx == 3 && matches!(*cc, "nxdomain" | "wildcard" | "wildcard-nodata" | "cname-nxdomain");
+                if cstate != want && !(opt_out_negative && cstate == "Insecure") {
+                    sim::violation(
+                        P,
+                        "completeness",
+                        format!("{}-reported-{}/world{}/concurrent", cc, cstate.split('(').next().unwrap_or(""), world_idx),
+                        format!("{} {} ({}, world {}): untampered response validated concurrently with {} {} reported {} instead of {}", cq, ct, cc, world_idx, qname, qtype, cstate, want),
+                    );
+                    return;
+                }
+            }
         }
         let harmed = final_harmed || cache_poisoned;
         let expect_secure = !r.insecure;
